@@ -21,7 +21,7 @@
 (* A ghost record g is a function of the history only (GhostInit, GhostStep).                                  *)
 EXTENDS Naturals, Sequences, FiniteSets
 
-CONSTANTS N, Core, Sync, AutoFence, FailStrat, T
+CONSTANTS N, Core, Sync, AutoFence, FailStrat, T, Mismatch
 
 Inst == 1..N
 
@@ -189,10 +189,13 @@ IPubsFold(cur, g, r, k) ==
                   \/ <<n, j>> \in r.fails \/ notif
            \* without auto_fence a FAILED peer becomes STOPPED
            fence == ~(chg /\ old = "FAILED" /\ s = "ISOLATED") \/ AutoFence
+           \* C13: a peer whose strategies differ from the local ones is never admitted
+           recip == ~(chg /\ s \in {"CHECKED", "RUNNING"}) \/ ((n \in Mismatch) = (j \in Mismatch))
        IN (IF graph THEN {} ELSE {"C07.InstanceGraph"})
           \cup (IF local THEN {} ELSE {"C07.LocalIsolated"})
           \cup (IF acc THEN {} ELSE {"C07.Accuracy"})
           \cup (IF fence THEN {} ELSE {"C07.Fence"})
+          \cup (IF recip THEN {} ELSE {"C13.Reciprocal"})
           \cup IPubsFold([cur EXCEPT ![n][j] = s], g, r, k + 1)
 
 \* Completeness: after a local tick of n nobody is left FAILED, and nobody active is overdue
